@@ -101,27 +101,44 @@ def mask_start_flag(out):
 
 
 def strip_sizes(out):
+    """Projection for the string-size option: declared sizes removed.  The tool groups the names of a DIM by size, so changing a size can move
+    a name to another DIM line of the same block or merge two lines; consecutive DIM / PARAM lines are therefore compared as one block of
+    (name, dims, type) entries, and string scalars - whose declaration line exists only for the sake of its size - are left out."""
     res = []
+    block = None  # [label, kind, entries]
+
+    def flush():
+        nonlocal block
+        if block is not None and (block[2] or block[0] is not None):
+            res.append("%s%s %r" % ("" if block[0] is None else "%d " % block[0], block[1], sorted(block[2])))
+        block = None
+
     for raw in out.split("\n"):
         try:
             lines = parse.parse_program(raw)
         except parse.B09SyntaxError:
+            flush()
             res.append(raw)
             continue
         stmts = [s for s in lines[0].stmts]
         if len(stmts) == 1 and stmts[0].kind in ("dim", "param"):
-            groups = stmts[0].groups
-            if stmts[0].kind == "dim" and all(((g["type"] or "").upper() or ("STRING" if all(n.endswith("$") for n, _ in g["names"]) else "REAL")) == "STRING"
-                                              and all(not dims for _, dims in g["names"]) for g in groups):
-                continue  # pure string-scalar declaration line (allocation of a size, or a source DIM of string scalars)
-            desc = []
-            for g in groups:
+            kind = stmts[0].kind.upper()
+            entries = []
+            for g in stmts[0].groups:
                 for n, d in g["names"]:
                     typ = (g["type"] or "").upper() or ("STRING" if n.endswith("$") else "REAL")
-                    desc.append((n.upper(), tuple(d), typ))
-            res.append("%s%s %r" % ("" if lines[0].label is None else "%d " % lines[0].label, stmts[0].kind.upper(), desc))
+                    if kind == "DIM" and typ == "STRING" and not d:
+                        continue  # a string scalar: declared only to give it a size
+                    entries.append((n.upper(), tuple(d), typ))
+            if block is not None and block[1] == kind and lines[0].label is None:
+                block[2] += entries
+            else:
+                flush()
+                block = [lines[0].label, kind, entries]
             continue
+        flush()
         res.append(raw)
+    flush()
     return "\n".join(res)
 
 
